@@ -178,6 +178,7 @@ var zvfCUniverse = zvfVUniverse{
 func zvfNewCInst(rnd *mrand.Rand, noUp bool, rich bool) *zvfCInst {
 	g := &zvfGate{}
 	var mon *zvfMonConn
+	zvfVInstMu.Lock() // instances are built one at a time: the wrap hook is a package-level variable
 	zvfVWrapConn = func(c net.Conn) io.ReadWriteCloser {
 		mon = &zvfMonConn{Conn: c}
 		return mon
@@ -186,7 +187,6 @@ func zvfNewCInst(rnd *mrand.Rand, noUp bool, rich bool) *zvfCInst {
 	if rich {
 		init.U = append(init.U, "c2")
 	}
-	zvfVInstMu.Lock()
 	in := zvfNewInst(&zvfCUniverse, init, false, mrand.New(mrand.NewSource(rnd.Int63()))) // own generator: operations of a hung batch may outlive it
 	zvfVWrapConn = nil
 	zvfVInstMu.Unlock()
@@ -411,10 +411,18 @@ type zvfCExperiment struct {
 	PanA      bool   `json:"panA"`
 	PanB      bool   `json:"panB"`
 	ModeAtHold string `json:"mode"`
+	PatienceMs int    `json:"patience_ms"` // how long A's upstream request was left unanswered
 }
 
 func zvfRunExperiment(a, b string, hold int, rnd *mrand.Rand) zvfCExperiment {
-	e := zvfCExperiment{A: a, B: b, Hold: hold}
+	return zvfRunExperimentP(a, b, hold, rnd, 60*time.Millisecond)
+}
+
+// zvfRunExperimentP: the underlying agent leaves A's hold-th request unanswered for `patience` (a hardware key waiting
+// for a touch takes many seconds); B is started meanwhile.  A keeps its exclusive use of the connection for as long as
+// the agent takes.
+func zvfRunExperimentP(a, b string, hold int, rnd *mrand.Rand, patience time.Duration) zvfCExperiment {
+	e := zvfCExperiment{A: a, B: b, Hold: hold, PatienceMs: int(patience / time.Millisecond)}
 	c := zvfNewCInst(rnd, rnd.Intn(2) == 0, true)
 	defer c.close()
 	if a == "unlock" || b == "unlock" {
@@ -446,7 +454,7 @@ func zvfRunExperiment(a, b string, hold int, rnd *mrand.Rand) zvfCExperiment {
 	case r := <-doneB:
 		rb = &r
 		e.BDone = true
-	case <-time.After(60 * time.Millisecond):
+	case <-time.After(patience):
 	}
 	close(c.g.release)
 	tmo := time.After(30 * time.Second)
@@ -564,6 +572,41 @@ func TestVerifConc(t *testing.T) {
 					nexp++
 				}
 			}
+		}
+	}
+
+	// 2b. a slow underlying agent: A's first request stays unanswered for many seconds while B arrives
+	pat := time.Duration(verifh.EnvInt("VERIF_CONC_PATIENCE_S", 12)) * time.Second
+	{
+		type pj struct{ a, b string }
+		var jobs []pj
+		for _, a := range zvfCKinds {
+			if hung[a] || nreq[a] == 0 {
+				continue
+			}
+			for _, b := range []string{"list", "forward"} {
+				if !hung[b] {
+					jobs = append(jobs, pj{a, b})
+				}
+			}
+		}
+		res := make([]zvfCExperiment, len(jobs))
+		seeds := make([]int64, len(jobs))
+		for i := range seeds {
+			seeds[i] = rnd.Int63()
+		}
+		var pwg sync.WaitGroup
+		for i, j := range jobs {
+			pwg.Add(1)
+			go func(i int, j pj) {
+				defer pwg.Done()
+				res[i] = zvfRunExperimentP(j.a, j.b, 1, mrand.New(mrand.NewSource(seeds[i])), pat)
+			}(i, j)
+		}
+		pwg.Wait()
+		for _, e := range res {
+			tr.Emit(map[string]interface{}{"ev": "exp", "e": e})
+			nexp++
 		}
 	}
 
